@@ -16,7 +16,8 @@ func main() {
 	run := ev.Start("C06")
 	gen2.Run(run)
 	gen1.Run(run)
-	lenient(run) // lenient / strict client over HTTP: v2
+	gen2.Lenient(run) // lenient / strict client over HTTP
+	gen1.Lenient(run)
 	run.Set("generations", []string{"v2", "root"})
 	run.Finish()
 }
